@@ -127,6 +127,15 @@ class C14(Prop):
             acc.count("pairs_under_virtual_zone_and_date", len(which))
         self.rec.drain()  # same judgement as above; the recorder matters for in-situ use
         r = env.rng("C14", case["seed"], s)
+        import dataclasses
+
+        proto = self.parser.SwitcherSchedule("0", False, set(), "13:00", "14:00")
+        for e in [s, (s + 7) % 1440]:
+            for derived in (dataclasses.replace(proto, start_time=ss, end_time=hhmm(e)), dataclasses.replace(dataclasses.replace(proto, end_time=hhmm(e)), start_time=ss)):
+                acc.count("observed_via_dataclasses_replace")
+                if derived.duration != want(s, e):
+                    acc.violation("wrong-duration-in-derived-schedule", f"dataclasses.replace(..., start_time={ss}, end_time={hhmm(e)}).duration = {derived.duration!r}, want {want(s, e)}",
+                                  {"start": ss, "end": hhmm(e), "got": derived.duration})
         for e in [s, (s + 1) % 1440, (s - 1) % 1440] + [r.randrange(1440) for _ in range(5)]:
             sch = self.parser.SwitcherSchedule("0", False, set(), ss, hhmm(e))
             acc.count("observed_via_schedule_object")
